@@ -219,7 +219,8 @@ def main():
         lp = os.path.join(evdir, "replay", "%s-build.log" % prop)
         open(lp, "w").write(log)
         sys.stdout.write(log[-4000:] + "\n")
-        if "engine/" in "".join(l for l in log.splitlines() if "error" in l and "/verif/" in l and REPO not in l):
+        errlines = [l for l in log.splitlines() if "error" in l]
+        if any(l.startswith(VERIF + "/") or (" " + VERIF + "/") in l for l in errlines) and not any(l.startswith(os.path.abspath(REPO) + "/") for l in errlines):
             print("HARNESS-ERROR: build failed inside /verif sources")
             return 2
         print("VIOLATION property=%s replay=%s" % (prop, lp))
